@@ -311,6 +311,9 @@ def parse_proxy_headers(
 
         addr = addr.strip()
 
+        if addr:
+            addr = strip_brackets(addr)
+
         if not addr:
             raise MalformedProxyHeader(
                 "Forwarded For=" if forwarded else "X-Forwarded-For",
@@ -318,7 +321,7 @@ def parse_proxy_headers(
                 client_addr,
             )
 
-        environ["REMOTE_ADDR"] = strip_brackets(addr)
+        environ["REMOTE_ADDR"] = addr
 
         if port is not None:
             environ["REMOTE_PORT"] = port.strip()
